@@ -30,6 +30,8 @@ type Query implements Node {
   wide: Wide
   dates(ds: [Date], dd: [[Date!]]): Int
   grid: [[Pet!]!]!
+  measure(u: Unit, us: [Unit!]): Int
+  grid2(fss: [[Filter!]!]): Int
   cube(at: [[[Int]]]): [[[Result]]]
 }
 type Mutation { set(in: Filter!): Pet }
@@ -38,12 +40,12 @@ interface Node { id: ID! }
 # an interface nothing implements (yet)
 interface Planned { id: ID! eta: Int }
 interface Named implements Node { id: ID! name(short: Boolean): String }
-type Pet implements Named & Node { id: ID! name(short: Boolean): String kind: Kind owner: Person nick: String tags: [String!] }
-type Person implements Node & Named { id: ID! name(short: Boolean): String pets(first: Int = 1): [Pet] age: Int nick: Int tags: [String] friend: Person }
+type Pet implements Named & Node { id: ID! name(short: Boolean): String kind: Kind owner: Person nick: String tags: [String!] matrix: [[Int]] }
+type Person implements Node & Named { id: ID! name(short: Boolean): String pets(first: Int = 1): [Pet] age: Int nick: Int tags: [String] friend: Person matrix: [[String]] }
 # robots
 #
 # are things, not pets
-type Robot @entity { id: ID! model: String }
+type Robot @entity { id: ID! model: String matrix: [Int] }
 # many fields with names one edit apart
 type Wide { fa: Int fb: Int fc: Int fd: Int fe: Int ff: Int fg: Int }
 # a long enumeration
@@ -52,6 +54,8 @@ union Result = Pet | Person
 union Thing = Pet | Robot
 union Trio = Pet | Person | Robot
 enum Kind @entity { DOG CAT }
+# values whose names begin like what some non-ASCII letters lower-case to (U+212A KELVIN SIGN, U+2126 OHM SIGN)
+enum Unit { KELVIN KELVIN_DELTA OHM OMEGA_2 K }
 input Filter @entity { name: String = "n" kinds: [Kind!] = [DOG] sub: Filter min: Int! = 0 req: Boolean! }
 input OneIn @oneOf { a: Int b: String }
 scalar Date @entity
@@ -201,7 +205,8 @@ var fieldSel = []string{
 	`__schema { types { name } }`, `__type(name: "Pet") { name kind }`, `__type { name }`, `pet { kind }`, `pet { kind { x } }`, `pet { }`,
 	`search { __typename }`, `search { id }`, `search { ... on Pet { id } }`, `node(id: 1) { ... on Pet { kind } }`, `node(id: 1) { nick }`, `x: id`,
 	`id: node(id: 1) { id }`, `person { pets { owner { pets { id } } } }`, `pet { __typename owner { __typename } }`, `named { __schema { types { name } } }`,
-	`grid { id }`, `grid`, `grid { nope }`, `cube { ... on Pet { id } }`, `cube { id }`, `wide { f }`, `wide { fa fz }`, `x: big(b: B0)`, `search { ... on Named { name } }`, `search { ... on Node { id } }`, `search { ... on Robot { id } }`, `named { ... on Result { __typename } }`, `pet { ... on Thing { __typename } }`,
+	`search { ... on Pet { m: matrix } ... on Person { m: matrix } }`, `trio { ... on Pet { m: matrix } ... on Robot { m: matrix } }`, `trio { ... on Person { m: matrix } ... on Robot { m: matrix } }`, `search { ... on Pet { m: matrix } ... on Person { m2: matrix } }`, `trio { ... on Pet { matrix } ... on Robot { id } }`,
+	`pet { __typenam __typename }`, `node(id: 1) { __typename __typenam }`, `grid { id }`, `grid`, `grid { nope }`, `cube { ... on Pet { id } }`, `cube { id }`, `wide { f }`, `wide { fa fz }`, `x: big(b: B0)`, `search { ... on Named { name } }`, `search { ... on Node { id } }`, `search { ... on Robot { id } }`, `named { ... on Result { __typename } }`, `pet { ... on Thing { __typename } }`,
 }
 
 var overlapSel = []string{
@@ -258,6 +263,8 @@ var litMenu = []string{
 	`[$v]`, `[$nope]`, `[{a: 1, a: 2}]`, `{k: [$nope]}`, `[[$v, {x: $v}]]`,
 	// text that a second formatting pass would mangle
 	`"50%d %s"`,
+	// a string with a stray byte of a multi-byte character; strings with letters whose lower-case form is shorter
+	"\"25 \xe2\"", "\"\u212aelvin\"", "\"\u212a\"", "\"\u2126\"", "[\"\u212aelvin_\", \"\xff\"]",
 }
 
 var dirMenu = []string{
@@ -371,7 +378,7 @@ var ValidProfiles = []Profile{
 		`query A { __schema { types { ...TF } } } query B { __schema { types { fields { type { fields { type { ...TF } } } } } } } fragment TF on __Type { name fields { name } }`,
 		`query B { __schema { types { fields { type { fields { type { ...TF } } } } } } } query A { __schema { types { ...TF } } } fragment TF on __Type { name fields { name } }`,
 	}}},
-	{Name: "links", Template: `query Q($v: Int = 1, $k: Kind!, $f: Filter, $vs: [Int]!, $nn: Int!) §0 { u1: search(n: $v, ks: [$k], f: $f) { __typename } u2: list(xs: [$vs]) u3: req(a: $nn) ...LF §1 §2 } fragment LF on Query { lf: id §3 ...LG } fragment LG on Query { lg: id §4 } mutation M($in: Filter!) { set(in: $in) { id } } subscription S { tick(every: 1) }`,
+	{Name: "links", Template: `query Q($v: Int = 1, $k: Kind!, $f: Filter, $vs: [Int]!, $nn: Int!, $deep: [[Filter!]!] = [[{req: true, kinds: [DOG], sub: {req: false, min: 2}}], [{req: false}]], $dl: [[Int]!] = [[1, null], []]) §0 { u1: search(n: $v, ks: [$k], f: $f) { __typename } u2: list(xs: [$vs]) u3: req(a: $nn) u4: grid2(fss: $deep) u5: list(xs: $dl) ...LF §1 §2 } fragment LF on Query { lf: id §3 ...LG } fragment LG on Query { lg: id §4 } mutation M($in: Filter!) { set(in: $in) { id } } subscription S { tick(every: 1) }`,
 		Holes: [][]string{
 			{``, `@tag(name: "op")`, `@once(v: $v) @tag(name: "a") @tag(name: "b", n: $v)`},
 			linkSel, append([]string{``}, linkSel...), append([]string{``}, linkSel...), append([]string{``}, linkSel...),
@@ -385,7 +392,7 @@ var ValidProfiles = []Profile{
 func valuePositions() []string {
 	var out []string
 	for _, pos := range []string{`search(q: %s) { __typename }`, `search(n: %s) { __typename }`, `search(ks: %s) { __typename }`, `search(f: %s) { __typename }`, `search(fl: %s) { __typename }`, `search(b: %s) { __typename }`, `search(i: %s) { __typename }`,
-		`date(d: %s)`, `list(xs: %s)`, `one(arg: %s)`, `req(a: %s)`, `pet(kind: %s) { id }`, `id @tag(name: %s)`, `search(f: {req: true, sub: %s}) { __typename }`, `search(f: {req: true, kinds: %s}) { __typename }`} {
+		`date(d: %s)`, `list(xs: %s)`, `one(arg: %s)`, `req(a: %s)`, `pet(kind: %s) { id }`, `id @tag(name: %s)`, `search(f: {req: true, sub: %s}) { __typename }`, `search(f: {req: true, kinds: %s}) { __typename }`, `measure(u: %s)`, `measure(us: %s)`} {
 		for _, l := range litMenu {
 			out = append(out, strings.Replace(pos, "%s", l, 1))
 		}
